@@ -468,6 +468,11 @@ func appendUnseenSampledPoints(path b6.Geometry, distanceMeters float64, seen ma
 
 // Return a path formed from the points of the two given paths, in the order they occur in those paths.
 func join(context *api.Context, pathA b6.Geometry, pathB b6.Geometry) (b6.Geometry, error) {
+	for _, path := range []b6.Geometry{pathA, pathB} {
+		if err := expectPath(path); err != nil {
+			return nil, err
+		}
+	}
 	points := make([]s2.Point, 0, pathA.GeometryLen()+pathB.GeometryLen())
 	i := 0
 	for i < pathA.GeometryLen() {
@@ -490,6 +495,11 @@ func join(context *api.Context, pathA b6.Geometry, pathB b6.Geometry) (b6.Geomet
 // determined by which points are shared between the paths. Returns an error
 // if no endpoints are shared.
 func orderedJoin(context *api.Context, pathA b6.Geometry, pathB b6.Geometry) (b6.Geometry, error) {
+	for _, path := range []b6.Geometry{pathA, pathB} {
+		if err := expectPath(path); err != nil {
+			return nil, err
+		}
+	}
 	var reverseA, reverseB bool
 	if pathA.PointAt(pathA.GeometryLen()-1) == pathB.PointAt(0) {
 		reverseA, reverseB = false, false
